@@ -635,19 +635,111 @@ func RunDetPure(c *core.Ctx) {
 				}
 			}
 		}
-		for _, rel := range []string{"features/fastreflection", "features/fastreflection/copied", "features/protoc"} {
+		// protogen's own view of the request's files_to_generate: File.Generate, and the raw request's list
+		var visitPkg func(ip *types.Package, seen map[*types.Package]bool)
+		visitPkg = func(ip *types.Package, seen map[*types.Package]bool) {
+			if seen[ip] {
+				return
+			}
+			seen[ip] = true
+			switch ip.Path() {
+			case "google.golang.org/protobuf/compiler/protogen":
+				if o, ok := ip.Scope().Lookup("File").(*types.TypeName); ok {
+					if st, ok := o.Type().Underlying().(*types.Struct); ok {
+						for i := 0; i < st.NumFields(); i++ {
+							if st.Field(i).Name() == "Generate" {
+								watch[st.Field(i)] = "protogen.File.Generate"
+							}
+						}
+					}
+				}
+			case "google.golang.org/protobuf/types/pluginpb":
+				if o, ok := ip.Scope().Lookup("CodeGeneratorRequest").(*types.TypeName); ok {
+					if st, ok := o.Type().Underlying().(*types.Struct); ok {
+						for i := 0; i < st.NumFields(); i++ {
+							if st.Field(i).Name() == "FileToGenerate" {
+								watch[st.Field(i)] = "CodeGeneratorRequest.FileToGenerate"
+							}
+						}
+					}
+					ms := types.NewMethodSet(types.NewPointer(o.Type()))
+					for i := 0; i < ms.Len(); i++ {
+						if ms.At(i).Obj().Name() == "GetFileToGenerate" {
+							watch[ms.At(i).Obj()] = "CodeGeneratorRequest.GetFileToGenerate"
+						}
+					}
+				}
+			}
+			for _, q := range ip.Imports() {
+				visitPkg(q, seen)
+			}
+		}
+		visitPkg(gp.Types, map[*types.Package]bool{})
+		for _, rel := range []string{"features/fastreflection", "features/fastreflection/copied", "features/protoc", "generator", "cmd/protoc-gen-go-pulsar"} {
 			p := c.Pkg(rel)
 			if p == nil {
 				continue
 			}
 			n := 0
+			// confirmed: generator.NewGenerator fills LocalPackages from File.Generate, GenerateFile hands it on, IsLocalMessage
+			// reads it (and both are watched in the templates)
+			allowed := map[*ast.Ident]bool{}
+			if rel == "generator" {
+				eachFunc(p, func(fd *ast.FuncDecl) {
+					if fd.Name.Name != "NewGenerator" && fd.Name.Name != "GenerateFile" && fd.Name.Name != "IsLocalMessage" {
+						return
+					}
+					ast.Inspect(fd, func(x ast.Node) bool {
+						if id, ok := x.(*ast.Ident); ok {
+							allowed[id] = true
+						}
+						return true
+					})
+				})
+			}
+			if rel == "cmd/protoc-gen-go-pulsar" {
+				// confirmed form in the driver: `if !file.Generate { continue }` — the file is left out as a whole
+				eachFunc(p, func(fd *ast.FuncDecl) {
+					ast.Inspect(fd, func(x ast.Node) bool {
+						// the same decision written positively: `for … { if file.Generate { … } }` as the whole loop body
+						if rs, ok := x.(*ast.RangeStmt); ok && len(rs.Body.List) == 1 {
+							if is, ok := rs.Body.List[0].(*ast.IfStmt); ok && is.Init == nil && is.Else == nil {
+								if sel, ok := ast.Unparen(is.Cond).(*ast.SelectorExpr); ok {
+									if id, ok := sel.X.(*ast.Ident); ok && rs.Value != nil && identOf(rs.Value) != nil && p.TypesInfo.ObjectOf(id) == p.TypesInfo.ObjectOf(identOf(rs.Value)) {
+										allowed[sel.Sel] = true
+									}
+								}
+							}
+						}
+						is, ok := x.(*ast.IfStmt)
+						if !ok || is.Init != nil || is.Else != nil || len(is.Body.List) != 1 {
+							return true
+						}
+						if br, ok := is.Body.List[0].(*ast.BranchStmt); !ok || br.Tok != token.CONTINUE || br.Label != nil {
+							return true
+						}
+						if ue, ok := ast.Unparen(is.Cond).(*ast.UnaryExpr); ok && ue.Op == token.NOT {
+							if sel, ok := ast.Unparen(ue.X).(*ast.SelectorExpr); ok {
+								allowed[sel.Sel] = true
+							}
+						}
+						return true
+					})
+				})
+			}
+			var ids []*ast.Ident
 			for id, obj := range p.TypesInfo.Uses {
-				if w, ok := watch[obj]; ok {
-					n++
-					c.Fail("T.pure", rel+" reads "+w, "template reads state that depends on the set of co-generated files", c.PosStr(p.Fset, id.Pos()), src)
+				if _, ok := watch[obj]; ok && !allowed[id] {
+					ids = append(ids, id)
 				}
 			}
-			c.Ok("T.pure", rel+" cross-file state readers", fmt.Sprintf("%d readers of LocalPackages/Ext/IsLocalMessage", n), "", src)
+			sort.Slice(ids, func(i, j int) bool { return ids[i].Pos() < ids[j].Pos() })
+			for _, id := range ids {
+				w := watch[p.TypesInfo.Uses[id]]
+				n++
+				c.Fail("T.pure", fmt.Sprintf("%s reads %s #%d", rel, w, n), "template reads state that depends on the set of co-generated files", c.PosStr(p.Fset, id.Pos()), src)
+			}
+			c.Ok("T.pure", rel+" cross-file state readers", fmt.Sprintf("%d readers of LocalPackages/Ext/IsLocalMessage, protogen File.Generate / the request's file_to_generate", n), "", src)
 		}
 	}
 	// sort comparators in L-gen: strict '<' on a key that is unique among the sorted elements
